@@ -927,7 +927,7 @@ def cli_multifile(ctx, files, jobs):
 def replay(ctx, path):
     """Re-run a recorded input on the real decoders: exit 1 + VIOLATION line iff the recorded behaviour is still there."""
     import replaylib
-    r = replaylib.load("C05", path)
+    r = replaylib.load(ctx, path)
     if "base_hex" not in r and "truncate_to" not in r:
         return replaylib.obligations("C05", run, r, path)
     vlib.c_build("asan", targets=["liblzma"])
